@@ -104,10 +104,16 @@ def install(rec):
 
 def plan(tier, seed):
     shards = 16
-    return [{"n": N_CASES[tier] // shards, "shard": i} for i in range(shards)]
+    shards_ = [{"n": N_CASES[tier] // shards, "shard": i} for i in range(shards)]
+    # plus the repository's own test-suite run with this check's contracts armed (DESIGN 6.4)
+    return shards_ + [{"kind": "suite", "shard": 99}]
 
 
 def run_shard(spec, rec):
+    if spec.get("kind") == "suite":
+        from vlib import suite
+        suite.run_suite("checks.c07", rec)
+        return
     rng = random.Random(f"c07-{spec['seed']}-{spec['shard']}")
     modes = ("ones", "all", "one_exhausted", "random", "random")
     for i in range(spec["n"]):
